@@ -66,6 +66,14 @@ from .sequence import Sequence
 
 from .localciderExceptions import WLException
 
+# verification hook (inactive unless PAPPULAB_LOCALCIDER_VERIF=1 and a hook is installed)
+_VERIF_HOOK = None
+
+
+def _verif_emit(kind, **info):
+    if _VERIF_HOOK is not None and os.environ.get('PAPPULAB_LOCALCIDER_VERIF') == '1':
+        _VERIF_HOOK(kind, info)
+
 
 class WangLandauMachine:
     """
@@ -643,6 +651,9 @@ class WangLandauMachine:
                 acceptProb = 0
                 skip = True
 
+            _verif_emit('proposal', oseq=oseq.seq, nseq=nseq.seq, knew=knew, idx_old=idx_old, idx_new=idx_new,
+                        inrange=not skip, acceptProb=acceptProb, f=f, nstep=nstep, niter=niter)
+
             # print(acceptProb)
             # if new sequence kappa is less visited than old sequence kappa,
             # visit it
@@ -689,6 +700,9 @@ class WangLandauMachine:
                 g[idx_old] = g[idx_old] + np.log(f)
                 H[idx_old] = H[idx_old] + 1
 
+            _verif_emit('step', oseq=oseq.seq, idx_old=idx_old, skip=skip, g=list(g), H=list(H), f=f,
+                        nstep=nstep, niter=niter)
+
             # increment the number of steps taken
             nstep = nstep + 1
 
@@ -715,6 +729,7 @@ class WangLandauMachine:
 
                 (H, f, niter, nstep) = self.__run_flatcheck(
                     H, Hlocal, niter, f, hlog, glog, g)
+                _verif_emit('flatcheck', g=list(g), H=list(H), f=f, nstep=nstep, niter=niter)
                 # to timing stats for this set of cycles
                 endTime = t.time()
                 print(("Time for this flat-check cycle: " +
